@@ -25,8 +25,9 @@ RULE = (
 ASSUMPTIONS = [
     "the image is at least as large as the filter window (every caller guarantees it)",
     "valid pixels carry finite disparities",
-    "bilateral windows of even width (int(3*sigma_space+1) or the image size even): only the weak clauses are judged "
-    "(mask, invalid pixels, edge pixels, result within the valid values of the enclosing odd window)",
+    "bilateral windows of even width (int(3*sigma_space+1) or the image size even): which side gets the extra row / column "
+    "is not documented, so the result must equal the weighted mean - spatial weights centred on the pixel itself - of ONE "
+    "of the four placements of the window that contain the pixel (direct check; the pipeline twin leaves them unjudged)",
     "median_for_intervals: bound bands are NaN exactly on invalid pixels (what interval_bounds delivers before "
     "validation); with regularisation on, only mask/disparity clauses are judged",
 ]
@@ -217,8 +218,6 @@ def body(ctx: Ctx, p: dict) -> None:
         off = win // 2
         rr = off
         odd = win % 2 == 1
-        if not odd:
-            ctx.unspecified += 1
         for i in range(ny):
             for j in range(nx):
                 if inv[i, j]:
@@ -250,6 +249,26 @@ def body(ctx: Ctx, p: dict) -> None:
                     e = float((wt * np.where(fin, w, 0.0)).sum() / wt.sum())
                     if abs(g - e) > 1e-5 * max(1.0, abs(e)) + 1e-5:
                         ctx.violation("C10/bilateral-wrong", f"pixel {(i, j)} got {g} expected {e} win={win} "
+                                                             f"sigma=({ss},{sc}) shape={(ny, nx)}")
+                    ctx.judged += 1
+                else:
+                    # even width: the window has one more row / column on one side (which side is not documented); whatever
+                    # the placement, the spatial weights are Gaussian in the distance to the pixel ITSELF
+                    cands = []
+                    for r0 in (i - off, i - off + 1):
+                        for c0 in (j - off, j - off + 1):
+                            if r0 < 0 or c0 < 0 or r0 + win > ny or c0 + win > nx or not (r0 <= i < r0 + win and c0 <= j < c0 + win):
+                                continue
+                            ww = masked[r0:r0 + win, c0:c0 + win].astype(np.float64)
+                            ff = ~np.isnan(ww)
+                            ii, jj = np.mgrid[r0:r0 + win, c0:c0 + win]
+                            ws = np.exp(-0.5 * (((ii - i) ** 2 + (jj - j) ** 2) / ss ** 2))
+                            wc = np.exp(-0.5 * ((ww - float(masked[i, j])) / sc) ** 2)
+                            wt = np.where(ff, ws * wc, 0.0)
+                            cands.append(float((wt * np.where(ff, ww, 0.0)).sum() / wt.sum()))
+                    if cands and not any(abs(g - e) <= 1e-5 * max(1.0, abs(e)) + 1e-5 for e in cands):
+                        ctx.violation("C10/bilateral-wrong", f"pixel {(i, j)} got {g}, weighted means centred on the pixel for the "
+                                                             f"admissible placements of the even window: {cands} win={win} "
                                                              f"sigma=({ss},{sc}) shape={(ny, nx)}")
                     ctx.judged += 1
                 if not fin.all():
